@@ -11,6 +11,14 @@ CONSTANTS Modes, MDepth, MRDepth, ValueRegs,
           Slices, Slice                    \* the 65536-value sweeps can be cut into Slices residue classes (one TLC process each)
 VARIABLES mode, x, steps
 mvars == <<flags, ehi, elo, opt, regs, mode, x, steps>>
+(* the header machine's universe: TLC needs ~10 ms per transition for the four frame properties, so the quick
+   tier offers the small call universe from one initial word (the traces cover the full one) *)
+MOps == IF Thorough THEN GOps ELSE SOps
+MRcs == IF Thorough THEN GRcs ELSE SRcs
+MNames == IF Thorough THEN ToSet(FlagNames) ELSE SNames
+MVers == IF Thorough THEN GVers ELSE SVers
+MELos == IF Thorough THEN GELos ELSE SELos
+MInitFlags == {10629}
 
 Idle == flags = 0 /\ ehi = 0 /\ elo = 0 /\ opt = FALSE /\ regs = <<>> /\ steps = 0
 FieldItems == {<<W, lo, w, 0, 0>> : W \in 1..8, lo \in 0..7, w \in 1..8}
@@ -24,7 +32,7 @@ MCInit ==
        \/ mode = "rcode" /\ x \in 0..4095 /\ Idle
        \/ mode = "value" /\ \E reg \in ValueRegs : x \in {<<reg, v>> : v \in {w \in 0..Max(reg) : w % Slices = Slice}} /\ Idle
        \/ mode = "text" /\ \E reg \in TextRegs : x \in {<<reg, s>> : s \in LexTexts \cup Words} /\ Idle
-       \/ mode = "header" /\ x = 0 /\ flags \in GInitFlags /\ ehi = 0 /\ elo = 0 /\ opt = FALSE /\ regs = <<>> /\ steps = 0
+       \/ mode = "header" /\ x = 0 /\ flags \in MInitFlags /\ ehi = 0 /\ elo = 0 /\ opt = FALSE /\ regs = <<>> /\ steps = 0
        \/ mode = "reg" /\ x = 0 /\ Idle
 MCNext == /\ \/ mode = "header" /\ steps < MDepth /\ HNext
              \/ mode = "reg" /\ steps < MRDepth /\ RNext
